@@ -20,6 +20,11 @@ def hexN (digits : Nat) (v : Nat) : String :=
 /-- first 8 bytes of a 256-bit value -/
 def short (r : BitVec 256) : String := hexN 16 (r.toNat >>> 192)
 
+/-- all 32 bytes -/
+def full (r : BitVec 256) : String :=
+  let d := Nat.toDigits 16 r.toNat
+  String.ofList (List.replicate (64 - d.length) '0' ++ d)
+
 def dM : Nat := 2 ^ 61 - 1
 def dP : Nat := 1000003
 @[inline] def mix (h x : Nat) : Nat := (h * dP + x) % dM
@@ -59,10 +64,13 @@ def sortNats (l : List Nat) : List Nat := (l.toArray.qsort (· < ·)).toList.era
 def observe (s : State NB) (j : Json) : String := Id.run do
   let mut out := s!"cnt={s.disk.count} lc={s.mem.lcHigh}/{s.disk.lcHigh} head="
   out := out ++ (match s.disk.head with | some h => short h | none => "-")
+  if jBool j "dg" then
+    let d := diagnostics s
+    out := out ++ s!" diag={full d.1}/{d.2.1}/{d.2.2}"
   out := out ++ " |"
   for c in jNats j "xs" do
     let r := xorAt s c
-    out := out ++ s!" X{c}={short r.1}@{r.2}"
+    out := out ++ s!" X{c}={full r.1}@{r.2}"
   out := out ++ " |"
   for c in jNats j "is" do
     let r := ibltAt s c
@@ -96,7 +104,8 @@ def step (st : St) (j : Json) : St × List String :=
   | "add" =>
     let tx := parseTx (jObj j "tx")
     let payload := match jStr j "payload" with | "ok" => some true | "bad" => some false | _ => none
-    let r := add cfg st.s tx { payload := payload, commitFails := jStr j "fail" != "none" && jStr j "fail" != "" }
+    let r := add cfg st.s tx { payload := payload, commitFails := jStr j "fail" != "none" && jStr j "fail" != "",
+                               savePayloadEventFails := jStr j "save" == "payload", saveTxEventFails := jStr j "save" == "tx" }
     ({ st with s := r.1 }, [if jBool j "quiet" then resStr r.2 else resStr r.2 ++ " | " ++ observe r.1 j])
   | "batch" => (st, ["batch"])
   | "obs" => (st, ["obs | " ++ observe st.s j])
@@ -107,6 +116,12 @@ def step (st : St) (j : Json) : St × List String :=
     let s := corruptMem st.s (jNat j "clock") (parseRef j "val"); ({ st with s := s }, ["corruptMem | " ++ observe s j])
   | "signal" => let s := signalIncorrect st.s; ({ st with s := s }, ["signal | " ++ observe s j])
   | "signalOK" => let s := signalCorrect st.s; ({ st with s := s }, ["signalOK | " ++ observe s j])
+  | "liveRepair" =>
+    -- the background loop: two signals, then checkPage until every page was visited (further runs are idle)
+    let s0 := signalIncorrect (signalIncorrect st.s)
+    let k := 2 * (s0.mem.lcHigh / cfg.pageSize + 1) + 2
+    let s := (List.range k).foldl (fun s _ => checkPage cfg s) s0
+    ({ st with s := s }, ["liveRepair | " ++ observe s j])
   | "check" =>
     let s := checkPage cfg st.s; ({ st with s := s }, [s!"check page={s.mem.repairPage} | " ++ observe s j])
   -- ---------------- tree level
